@@ -86,6 +86,16 @@ Theorem time_advance_changes_no_share : forall s o w, op_share o = None -> sh w 
 Proof. exact clock_ops_keep_shares. Qed.
 Print Assumptions time_advance_changes_no_share.
 
+(* the store's own .time share (created by Store.__init__, rewritten by changeStamp/advanceStamp):
+   after every history its stamp is the store stamp and its only field is value = the store stamp
+   (0 while the store has no stamp); no share operation ever touches it *)
+Theorem time_share_tracks_clock : forall t0 ops,
+  let s := run t0 ops in
+  stamp (shT s) = sstamp s /\
+  fl (shT s) = [(value_key, Some (match sstamp s with Some t => t | None => 0 end))] /\ deck (shT s) = [].
+Proof. exact time_inv_run. Qed.
+Print Assumptions time_share_tracks_clock.
+
 (* laws of the abstract ordered map (what "insertion-ordered mapping" means) *)
 Theorem ordered_map_laws : forall k v (m : amap),
   (forall m', a_setattr k v m = Some m' -> a_get k m' = Some v) /\
